@@ -73,6 +73,36 @@ def drop_renamed(rows):
     return out
 
 
+def lazy_slot_in_hidden(rc):
+    """v3 only: a bare-name formula `${{name}}` naming a top-level template (it evaluates to the
+    forward-reference slot object itself, without reserving an id) stored in a hidden field or in a row
+    of a hidden table: the id is reserved only when a row holding the slot is written (finding D44)."""
+    if rc["version"] != 3:
+        return False
+    tops = set()
+    for st in rc["statements"]:
+        if "object" in st:
+            tops.add(st["object"])
+            if st.get("nickname"):
+                tops.add(st["nickname"])
+
+    def bare(fd):
+        return fd[0] == "tmpl" and len(fd[1]) == 1 and fd[1][0][0] == "expr" and fd[1][0][1][0] == "name" and fd[1][0][1][1] in tops
+
+    def walk(st, hidden):
+        if "var" in st:
+            return False
+        h = hidden or st["object"].startswith("__")
+        for n, fd in st.get("fields", []):
+            if bare(fd) and (h or n.startswith("__")):
+                return True
+            if fd[0] == "nested" and walk(fd[1], h or n.startswith("__")):
+                return True
+        return any(walk(f, h) for f in st.get("friends", []))
+
+    return any(walk(st, False) for st in rc["statements"])
+
+
 def twin_oracle(rep, rc, k):
     text = recipes.recipe_yaml(rc)
     twin = unhide(copy.deepcopy(rc))
@@ -85,7 +115,7 @@ def twin_oracle(rep, rc, k):
             return a, case
     ca, cb = a.outcome.split(":")[0], b.outcome.split(":")[0]
     if ca != cb:
-        if ca == "ok" and "Reference not fulfilled" in (b.error or ""):
+        if (ca == "ok" and "Reference not fulfilled" in (b.error or "")) or lazy_slot_in_hidden(rc):
             # a forward-reference slot stored (un-allocated, v3 native formula) in a hidden field or in a
             # row of a hidden table is never asked for its id because it is never written; the visible
             # twin is, reserves an id at write time and then fails the end-of-iteration check
@@ -102,7 +132,8 @@ def twin_oracle(rep, rc, k):
             i = 0
             while i < min(len(ra), len(rb)) and ra[i] == rb[i]:
                 i += 1
-            rep.violation("C09:twin-differs", f"row {i}: {ra[i] if i < len(ra) else None} but the un-hidden twin (renamed names dropped) gives {rb[i] if i < len(rb) else None}",
+            sig = "C09:twin-outcome:unfulfilled-only-when-visible" if lazy_slot_in_hidden(rc) else "C09:twin-differs"
+            rep.violation(sig, f"row {i}: {ra[i] if i < len(ra) else None} but the un-hidden twin (renamed names dropped) gives {rb[i] if i < len(rb) else None}",
                           case, rb[i] if i < len(rb) else None, ra[i] if i < len(ra) else None)
     return a, case
 
